@@ -14,7 +14,12 @@ descriptors of every emitted class):
   * `Address.rel` resolves to the referenced type under Python scoping for EVERY same-module shape
     (`rel_resolves`, no exclusion since the `fix:` commit 92701a6); the former §9-F9 inputs — a nested
     message `X.A` referring to `A.B` — are kept as regression theorems (`rel_shadowed_regression`,
-    `rel_shadowed_nested_regression`).
+    `rel_shadowed_nested_regression`);
+  * schema loading: a field's oneof is the declaration its index points at whatever the number of members
+    (`oneof_name_lookup`, `oneof_membership_preserved`), forward / backward / recursive references resolve alike
+    (`resolution_order_irrelevant`), (sub-)packages of the API and `proto-plus-deps` packages are proto-plus
+    packages imported from `…types` (`proto_plus_packages`, `python_import_target_layout`), and the
+    string-prefix quirk of that test (`proto_plus_prefix_quirk`).
 -/
 namespace GapicModel.Props.C02
 open GapicModel.Model.Types
